@@ -59,3 +59,10 @@ func (ps *pubsub) Wait(key string) {
 	case <-ctx.Done():
 	}
 }
+
+// Visited returns true if key has been emitted.
+func (ps *pubsub) Visited(key string) bool {
+	ps.mu.RLock()
+	defer ps.mu.RUnlock()
+	return ps.visited[key]
+}
